@@ -112,6 +112,15 @@ def check_load_handlers(A, R, rid, rid_force=None):
                     facts = [(src(a), pol) for a, pol in cfg.facts_at(ln.id)]
                     fparam = 'force'
                     ok = (fparam, False) in facts
+                    if not ok:
+                        # a flag computed in steps (`reuse = False; if exists: reuse = not force`): the value of the guard when force holds
+                        from ..terms import truth_under as _truth
+                        for a_, pol_ in cfg.facts_at(ln.id):
+                            if not pol_ or getattr(cfg.nodes.get(ln.id), 'owner', f.node) is not f.node:
+                                continue
+                            for t_ in A.sym.terms_at(f, ('inst', fc), [a_]).get(id(a_), []):
+                                if _truth(t_, lambda c_: True if c_ == ('p', fparam) else None) is False:
+                                    ok = True
                     R.check(ok, rid_force, construct, key_of('force-guard'), 'load guarded by not force', 'the load is not guarded by `not force`: force=True could return the stored value', witness=[str(facts)], where=where(f, ld))
 
 
